@@ -438,7 +438,7 @@ def proof_stage(res, prop, extra_targets=()):
         res.discharged = len(names)
         if res.tier == "thorough":
             # independent re-check of the compiled files (and everything they depend on) with coqchk
-            budget = int(os.environ.get("VERIF_COQCHK_SECONDS", "900"))
+            budget = int(os.environ.get("VERIF_COQCHK_SECONDS", "600"))
             rc, out = sh(["timeout", str(budget), "coqchk", "-silent", "-o", "-R", ".", "PV", "PV.Props.%s" % prop], budget + 60, cwd=COQ)
             summary = out[out.find("CONTEXT SUMMARY"):] if "CONTEXT SUMMARY" in out else out[-1500:]
             res.checker_cmd += " && coqchk -silent -o -R . PV PV.Props.%s" % prop
